@@ -676,7 +676,7 @@ pub fn run(ctx: &mut Ctx) {
 	let quick = ctx.tier == crate::engine::Tier::Quick;
 	let dl = if quick { 6 } else { 7 };
 	ctx.rule = format!(
-		"exhaustive: every string of length <= {dl} over the 16 symbols BCDFIJSZVL;[()/a is given to the field, method and return descriptor parsers (accept iff member of JVMS 4.3, parsed structure == reference structure, write(parse(s)) == s); every string of length <= 5 over . ; [ / < > $ a b and every string of length <= 4 over the descriptor alphabet is given to the seven name predicates and the inner-class split/join; dimension counts 0..8 and within 3 of every multiple of 256 / 65536 that an 8- or 16-bit counter would wrap at, for 12 element forms, to parsers and predicates (dimension() of an accepted array class name == d); random: generated type structures (up to 255 dimensions, long and non-ASCII names) printed and re-parsed, long members and their single-edit neighbours. Non-trivial = length >= 2 and a grammar member or one deletion away from one (names: length >= 2); distinct by string hash"
+		"exhaustive: every string of length <= {dl} over the 16 symbols BCDFIJSZVL;[()/a is given to the field, method and return descriptor parsers (accept iff member of JVMS 4.3, parsed structure == reference structure, write(parse(s)) == s); every string of length <= 5 over . ; [ / < > $ a b and every string of length <= 4 over the descriptor alphabet is given to the seven name predicates and the inner-class split/join; dimension counts 0..8 and within 3 of every multiple of 256 / 65536 that an 8- or 16-bit counter would wrap at, for 12 element forms, to parsers and predicates (dimension() of an accepted array class name == d); special names (<init>, <clinit>, module-info, $-edge cases) with all single deletions and one-character extensions, to the name predicates and the inner-class split/join; random: generated type structures (up to 255 dimensions, long and non-ASCII names) printed and re-parsed, long members and their single-edit neighbours. Non-trivial = length >= 2 and a grammar member or one deletion away from one (names: length >= 2); distinct by string hash"
 	);
 	ctx.assume("class names inside L...; follow JVMS 4.2.1 (non-empty `/`-separated unqualified names)");
 	ctx.exhaustive = true;
@@ -686,6 +686,34 @@ pub fn run(ctx: &mut Ctx) {
 	enumerate(ctx, "names_exhaustive", NAME_ALPHABET, 5, check_names, |_| true);
 	enumerate(ctx, "names_over_descriptor_alphabet", DESC_ALPHABET, 4, check_names, |_| true);
 	dimension_boundaries(ctx);
+	// names that are special as a whole, and their near misses (the name alphabets above cannot spell them)
+	ctx.run_enum("special_names", |rec| {
+		let bases = ["<init>", "<clinit>", "this", "module-info", "package-info", "java/lang/Object", "a$b", "$", "$$", "a$", "$a", "pkg/$a", "a/$", "a//b", "/a", "a/", "1", "é", "\u{10400}", " ", ""];
+		let mut all: Vec<String> = Vec::new();
+		for b in bases {
+			all.push(b.to_string());
+			// every single deletion and a few insertions
+			let chars: Vec<char> = b.chars().collect();
+			for i in 0..chars.len() {
+				let mut c = chars.clone();
+				c.remove(i);
+				all.push(c.into_iter().collect());
+			}
+			for extra in ["x", "<", ">", "/", "$", "[", ";", "."] {
+				all.push(format!("{b}{extra}"));
+				all.push(format!("{extra}{b}"));
+			}
+			all.push(b.to_uppercase());
+		}
+		all.sort();
+		all.dedup();
+		for s in all {
+			let mut obs = rec.obs();
+			let r = crate::engine::no_panic(|| check_names(&s, &mut obs)).and_then(|x| x);
+			obs.nontrivial_if(s.len() >= 2);
+			rec.case(|| json!({"string": s}), fnv64(s.as_bytes()), obs, r);
+		}
+	});
 	let long = || {
 		(proptest::collection::vec(rtype_strategy(), 0..4), proptest::option::of(rtype_strategy()), 0u8..3, edit_strategy()).prop_map(|(params, ret, form, edit)| {
 			let mut s = String::new();
